@@ -96,6 +96,8 @@ def run_case(case):
         return run_twin(case)
     if case.get("atx_threads"):
         return run_atx_threads(case)
+    if case.get("daliserver_threads"):
+        return run_daliserver_threads(case)
     if case["driver"] in ("daliserver", "atx"):
         return run_sync(case)
     obs = sc.run(case)
@@ -411,6 +413,100 @@ def run_atx_threads(case):
     return out
 
 
+# ------------------------------------------------- the daliserver client used from two threads ----
+def run_daliserver_threads(case):
+    """case: {"daliserver_threads": true, "a": value, "b": value, "twice": bool}
+    Two threads call send() on one DaliServer object in its default mode (one connection per command).  The fake
+    daliserver answers each connection according to what was sent on THAT connection, and holds the first answer
+    back until the second thread has had time to start its own exchange.  Each thread gets its own answer."""
+    import threading
+    import time
+    import dali.driver.daliserver as DS
+    from dali.gear import general as g
+    lock = threading.Condition()
+    state = {"conns": [], "go": False}
+    want = {}
+
+    class Conn:
+        def __init__(self):
+            self.sent = []
+            self.users = set()
+
+        def send(self, data):
+            with lock:
+                self.sent.append(bytes(data))
+                self.users.add(threading.current_thread().name)
+                lock.notify_all()
+            return len(data)
+
+        sendall = send
+
+        def recv(self, n):
+            with lock:
+                lock.wait_for(lambda: state["go"], timeout=20)
+                last = self.sent[-1] if self.sent else b""
+            return bytes([2, 1, want.get(last[2:4], 0xEE), 0])
+
+        def close(self):
+            pass
+
+    class FakeSocketModule:
+        @staticmethod
+        def create_connection(target, *a, **kw):
+            c = Conn()
+            with lock:
+                state["conns"].append(c)
+                lock.notify_all()
+            return c
+    cmd_a, cmd_b = g.QueryActualLevel(1), g.QueryActualLevel(2)
+    want[bytes(cmd_a.frame.pack)] = case["a"]
+    want[bytes(cmd_b.frame.pack)] = case["b"]
+    saved = DS.socket
+    DS.socket = FakeSocketModule
+    out = []
+    try:
+        d = DS.DaliServer("verif-daliserver", 1)
+        results = {}
+
+        def worker(name, cmd):
+            try:
+                results[name] = ("ok", d.send(cmd))
+            except Exception as e:  # noqa
+                results[name] = ("raised", e)
+        ta = threading.Thread(target=worker, name="A", args=("A", cmd_a), daemon=True)
+        tb = threading.Thread(target=worker, name="B", args=("B", cmd_b), daemon=True)
+
+        def sent_total():
+            return sum(len(c.sent) for c in state["conns"])
+        ta.start()
+        with lock:
+            if not lock.wait_for(lambda: sent_total() >= 1, timeout=20):
+                return [("C16:daliserver:threads:first-command-not-written", "thread A's command was not written within 20 s")]
+        tb.start()
+        with lock:
+            lock.wait_for(lambda: sent_total() >= 2, timeout=case.get("hold", 0.8))
+            state["go"] = True
+            lock.notify_all()
+        ta.join(20)
+        tb.join(20)
+        for name, val in (("A", case["a"]), ("B", case["b"])):
+            r = results.get(name)
+            if r is None:
+                out.append(("C16:daliserver:threads:caller-hangs", "thread %s did not return" % name))
+            elif r[0] == "raised":
+                out.append(("C16:daliserver:threads:send-raised:%s" % type(r[1]).__name__, "thread %s: %r" % (name, r[1])))
+            else:
+                got = sc.describe_response(r[1])
+                if got.get("raw") != ["value", val]:
+                    out.append(("C16:daliserver:threads:answer-of-the-other-thread-or-lost",
+                                "thread %s asked its lamp, daliserver answered %#x on the connection that carried the question; "
+                                "send() returned %r; connections %r" % (name, val, got,
+                                                                       [(sorted(c.users), [x.hex() for x in c.sent]) for c in state["conns"]])))
+    finally:
+        DS.socket = saved
+    return out
+
+
 # ------------------------------------------------- two driver objects in one program ----
 def run_twin(case):
     """case: {"twin": kind, "seq0": [a, b], "sides": {"A": [cmd specs], "B": [...]}, "t0": {"A": t, "B": t}, "lat": [[..], [..]]}
@@ -565,6 +661,16 @@ def _shard(arg):
             res.violation(sig, case, msg)
         res.sample(case, cls="atx two threads")
         return res
+    if kind == "daliserver-threads":
+        for k in range(4):
+            case = {"daliserver_threads": True, "a": (0x31 + seed * 3 + k) % 255, "b": (0x92 + seed * 5 + 2 * k) % 255, "hold": 0.5}
+            res.count()
+            res.nontrivial()
+            res.label("daliserver:two-threads")
+            for sig, msg in run_case(case):
+                res.violation(sig, case, msg)
+        res.sample(case, cls="daliserver two threads")
+        return res
     if kind == "twin":
         hyp.search(twin_case(), run_case, res, n, seed, ID, nontrivial=lambda c: True,
                    classify=lambda c: ["twin:" + c["twin"], "twin:same-sequence-numbers" if c["seq0"][0] == c["seq0"][1]
@@ -583,6 +689,7 @@ def run(ctx):
         shards.append(("async", drv, ctx.seed * 1000 + k, n // 4))
     shards.append(("sync", None, ctx.seed * 1000 + 99, n))
     shards.append(("atx-threads", None, ctx.seed, 1))
+    shards.append(("daliserver-threads", None, ctx.seed, 1))
     shards.append(("twin", None, ctx.seed * 1000 + 98, max(60, n // 6)))
     shards.append(("twin", None, ctx.seed * 1000 + 97, max(60, n // 6)))
     ctx.pmap(_shard, shards)
